@@ -122,17 +122,48 @@ class _Norm:
 
 
 class _Subst(ast.NodeTransformer):
-    def __init__(self, env):
+    """replace names by what they were bound to — only at the positions the normaliser looks through (boolean / arithmetic operators,
+    conditional expressions, tuples, `bool(.)` / `float(.)`); the inside of any other call / subscript / attribute stays as written, so
+    that the measured quantity keeps the names of the source (`np.linalg.eigvalsh(matAAT)[0]`)"""
+    def __init__(self, env, eps_name='zero_eps'):
         self.env = env
+        self.eps_name = eps_name
 
     def visit_Name(self, node):
         if isinstance(node.ctx, ast.Load) and node.id in self.env:
             v = self.env[node.id]
             if v is None:
+                if node.id == self.eps_name:
+                    raise Untranslatable('`%s` is rebound in a branch / loop / augmented assignment' % node.id)
                 return node                 # assigned in a loop / branch: stays an opaque quantity
             import copy
             return copy.deepcopy(v)
         return node
+
+    def _opaque(self, node):
+        # the tolerance must not hide inside an opaque expression either
+        for x in ast.walk(node):
+            if isinstance(x, ast.Name) and x.id == self.eps_name and self.env.get(x.id, 0) is None:
+                raise Untranslatable('`%s` is rebound in a branch / loop / augmented assignment' % x.id)
+        return node
+
+    def visit_Call(self, node):
+        if isinstance(node.func, ast.Name) and node.func.id in ('bool', 'float') and len(node.args) == 1 and not node.keywords:
+            node.args = [self.visit(node.args[0])]
+            return node
+        if isinstance(node.func, ast.Attribute) and node.func.attr in ('bool_', 'bool') and len(node.args) == 1 and not node.keywords:
+            node.args = [self.visit(node.args[0])]
+            return node
+        return self._opaque(node)
+
+    def visit_Subscript(self, node):
+        return self._opaque(node)
+
+    def visit_Attribute(self, node):
+        return self._opaque(node)
+
+    def visit_Lambda(self, node):
+        return self._opaque(node)
 
 
 def _assigned_names(stmts):
@@ -151,28 +182,72 @@ def _assigned_names(stmts):
     return out
 
 
-def _verdict_expr(fn, verdict_names=('ret', 'tag_rank_one')):
+def _walk_own(node):
+    """ast.walk that does not descend into nested function / class definitions"""
+    todo = list(ast.iter_child_nodes(node))
+    while todo:
+        n = todo.pop()
+        yield n
+        if not isinstance(n, (ast.FunctionDef, ast.AsyncFunctionDef, ast.ClassDef, ast.Lambda)):
+            todo.extend(ast.iter_child_nodes(n))
+
+
+def _binding_census(fn):
+    """name -> (number of bindings anywhere in the function body, number of those that are plain top-level `name = value` statements)"""
+    total, top = {}, {}
+
+    def add(d, n):
+        d[n] = d.get(n, 0) + 1
+    for n in _walk_own(fn):
+        tg = []
+        if isinstance(n, ast.Assign):
+            tg = n.targets
+        elif isinstance(n, (ast.AugAssign, ast.AnnAssign)):
+            tg = [n.target]
+        elif isinstance(n, (ast.For, ast.AsyncFor, ast.comprehension)):
+            tg = [n.target]
+        elif isinstance(n, ast.NamedExpr):
+            tg = [n.target]
+        elif isinstance(n, (ast.With, ast.AsyncWith)):
+            tg = [i.optional_vars for i in n.items if i.optional_vars is not None]
+        elif isinstance(n, ast.ExceptHandler) and n.name:
+            add(total, n.name)
+        elif isinstance(n, (ast.Import, ast.ImportFrom)):
+            for a in n.names:
+                add(total, (a.asname or a.name).split('.')[0])
+        for t in tg:
+            for x in ast.walk(t):
+                if isinstance(x, ast.Name):
+                    add(total, x.id)
+    for st in fn.body:
+        if isinstance(st, ast.Assign) and len(st.targets) == 1 and isinstance(st.targets[0], ast.Name):
+            add(top, st.targets[0].id)
+    return total, top
+
+
+def _verdict_expr(fn, eps_name='zero_eps'):
     """symbolic execution of the straight-line part of the function: the expression returned (names replaced by what they were bound to).
-    Only the names that can carry the verdict (and what they are built from) are followed; `ret = ret, extra` (return_info) keeps the verdict."""
+    `ret = ret, extra` (return_info) keeps the verdict.  Fail-safe rules: the function has exactly one `return`, the last top-level
+    statement (a return anywhere else — branch, loop, try, with — makes the verdict unknown); the tolerance `zero_eps` is never rebound
+    outside straight-line code."""
+    body = list(fn.body)
+    rets = [n for n in _walk_own(fn) if isinstance(n, ast.Return)]
+    if len(rets) != 1 or not body or rets[0] is not body[-1]:
+        raise Untranslatable('%d return statements / the return is not the last top-level statement' % len(rets))
+    total, top = _binding_census(fn)
+    if total.get(eps_name, 0) != top.get(eps_name, 0):
+        raise Untranslatable('`%s` is rebound in a branch / loop / augmented assignment' % eps_name)
     env = {}
 
     def sub(node):
-        return _Subst(env).visit(__import__('copy').deepcopy(node))
-    body = list(fn.body)
-    ret = None
-    for st in body:
-        if isinstance(st, ast.Return):
-            ret = st.value
-            break
+        return _Subst(env, eps_name).visit(__import__('copy').deepcopy(node))
+    for st in body[:-1]:
         if isinstance(st, ast.Assign) and len(st.targets) == 1 and isinstance(st.targets[0], ast.Name):
             name = st.targets[0].id
             v = st.value
             if isinstance(v, ast.Tuple) and v.elts and isinstance(v.elts[0], ast.Name) and v.elts[0].id == name:
                 continue                        # ret = ret, info
-            try:
-                env[name] = sub(v)
-            except Untranslatable:
-                env[name] = None
+            env[name] = sub(v)
             continue
         if isinstance(st, ast.If):
             names = _assigned_names([st])
@@ -184,23 +259,16 @@ def _verdict_expr(fn, verdict_names=('ret', 'tag_rank_one')):
                 return None
             sb, so = single(b), single(o)
             if sb and so and sb[0] == so[0]:
-                try:
-                    env[sb[0]] = ast.IfExp(test=sub(st.test), body=sub(sb[1]), orelse=sub(so[1]))
-                except Untranslatable:
-                    env[sb[0]] = None
+                env[sb[0]] = ast.IfExp(test=sub(st.test), body=sub(sb[1]), orelse=sub(so[1]))
                 continue
             if sb and not o and isinstance(sb[1], ast.Tuple) and sb[1].elts and isinstance(sb[1].elts[0], ast.Name) and sb[1].elts[0].id == sb[0]:
                 continue                        # if return_info: ret = ret, info
-            if any(isinstance(x, ast.Return) for x in ast.walk(st)) and (names & set(verdict_names)):
-                raise Untranslatable('return inside a branch')
             for n in names:
                 env[n] = None
             continue
         for n in _assigned_names([st]):
             env[n] = None
-    if ret is None:
-        raise Untranslatable('no top-level return')
-    return sub(ret)
+    return sub(body[-1].value)
 
 
 def _signature_default(module, fname, arg, fn_ast):
@@ -234,8 +302,10 @@ def _rhs_text(be, c, eps='zero_eps'):
     return table[(c, be)]
 
 
-def _normal_form(b, lhs_name):
-    """('cmp', op, a_m*m + a_e*e + a_0 OP 0)  ->  Lean text `lhs OP' rhs` with the measured quantity alone on the left"""
+def _normal_form(b, lhs_name, direction):
+    """('cmp', op, a_m*m + a_e*e + a_0 OP 0)  ->  Lean text `lhs OP' rhs` with the measured quantity alone on the left.
+    `direction`: after solving for the measured quantity the certificate must be a bound from `below` (rank-one:
+    the bound is small) resp. `above` (Gram tests: the smallest eigenvalue is large) — `-eigvalsh(-G)[0] > eps` is not of the shape"""
     if b[0] == 'const':
         raise Untranslatable('verdict is the constant %s' % b[1])
     _, op, a = b
@@ -243,6 +313,8 @@ def _normal_form(b, lhs_name):
         raise Untranslatable('verdict does not depend on the measured quantity')
     if a['m'] < 0:
         op = _MIRROR[op]
+    if op not in ({'below': ('<', '<='), 'above': ('>', '>=')}[direction]):
+        raise Untranslatable('certificate is not a bound from %s on the measured quantity' % direction)
     be, c = -a['e'] / a['m'], -a['1'] / a['m']
     if be.denominator != 1 or c.denominator != 1:
         raise Untranslatable(f'threshold {c} + {be}*zero_eps is not of a recognised shape')
@@ -268,24 +340,75 @@ def _extract_rank_one(src):
     # the measured quantity of the verdict must be the bound that is returned
     if not nm.measured or ast.dump(ret.elts[1]) not in nm.measured:
         raise Untranslatable('the verdict is not taken on the returned bound')
-    return _normal_form(cert, 'upper_bound'), _signature_default('numqi.matrix_space._numerical_range', 'detect_real_matrix_subspace_rank_one', 'zero_eps', fn)
+    return _normal_form(cert, 'upper_bound', 'below'), _signature_default('numqi.matrix_space._numerical_range', 'detect_real_matrix_subspace_rank_one', 'zero_eps', fn)
 
 
-def _measure_kind(node):
-    """which quantity the Gram-matrix certificate measures: `np.linalg.eigvalsh(X)[0]` -> smallestEigenvalue;
-    `np.abs(np.diag(scipy.linalg.lu(X)[2])).min()` -> minAbsLUPivot (not rank revealing: the repaired defect 561406a); anything else -> other"""
-    if isinstance(node, ast.Subscript) and isinstance(node.slice, ast.Constant) and node.slice.value == 0 \
-            and isinstance(node.value, ast.Call) and isinstance(node.value.func, ast.Attribute) and node.value.func.attr == 'eigvalsh' \
-            and len(node.value.args) == 1 and not node.value.keywords:
-        return 'smallestEigenvalue'
-    if any(isinstance(x, ast.Attribute) and x.attr == 'lu' for x in ast.walk(node)):
+def _module_aliases(tree):
+    """local name -> dotted module it stands for (`import numpy as np` -> np: numpy; `import scipy.linalg` -> scipy: scipy)"""
+    out = {}
+    for n in tree.body:
+        if isinstance(n, ast.Import):
+            for a in n.names:
+                out[a.asname or a.name.split('.')[0]] = a.name if a.asname else a.name.split('.')[0]
+        elif isinstance(n, ast.ImportFrom) and n.module:
+            for a in n.names:
+                out[a.asname or a.name] = n.module + '.' + a.name
+    return out
+
+
+def _dotted(node, aliases):
+    parts = []
+    while isinstance(node, ast.Attribute):
+        parts.append(node.attr); node = node.value
+    if not isinstance(node, ast.Name):
+        return None
+    return '.'.join([aliases.get(node.id, '?' + node.id)] + parts[::-1])
+
+
+_EIGVALSH = {'numpy.linalg.eigvalsh', 'scipy.linalg.eigvalsh'}
+_EIGH = {'numpy.linalg.eigh', 'scipy.linalg.eigh'}
+_MINF = {'numpy.min', 'numpy.amin'}
+
+
+def _measure_kind(node, aliases, bound_once):
+    """which quantity the Gram-matrix certificate measures.  `smallestEigenvalue` only for the smallest entry of
+    `numpy/scipy.linalg.eigvalsh(G)` (spelled `[0]`, `.min()`, `np.min(.)`, `min(.)`) or of `eigh(G)[0]`, with `G` a plain name that is
+    bound exactly once, by a top-level assignment (so `eigvalsh(G + I)`, `eigvalsh(-G)`, a `G` replaced in a branch, or another library's
+    `eigvalsh` do not qualify); `minAbsLUPivot` if an `lu` factorisation is involved (the repaired defect 561406a); anything else `other`"""
+    def smallest_of(n):
+        # returns the array expression whose smallest entry `n` is, or None
+        if isinstance(n, ast.Subscript) and isinstance(n.slice, ast.Constant) and n.slice.value == 0:
+            return n.value
+        if isinstance(n, ast.Call) and isinstance(n.func, ast.Attribute) and n.func.attr == 'min' and not n.args and not n.keywords:
+            d = _dotted(n.func, aliases)
+            return n.func.value if (d is None or d not in _MINF) else None
+        if isinstance(n, ast.Call) and len(n.args) == 1 and not n.keywords and \
+                ((isinstance(n.func, ast.Name) and n.func.id == 'min') or _dotted(n.func, aliases) in _MINF):
+            return n.args[0]
+        return None
+    if any(isinstance(x, ast.Attribute) and x.attr in ('lu', 'lu_factor') for x in ast.walk(node)):
         return 'minAbsLUPivot'
-    return 'other'
+    arr = smallest_of(node)
+    if arr is None:
+        return 'other'
+    call = None
+    if isinstance(arr, ast.Call) and _dotted(arr.func, aliases) in _EIGVALSH:
+        call = arr
+    elif isinstance(arr, ast.Subscript) and isinstance(arr.slice, ast.Constant) and arr.slice.value == 0 \
+            and isinstance(arr.value, ast.Call) and _dotted(arr.value.func, aliases) in _EIGH:
+        call = arr.value
+    if call is None or len(call.args) != 1 or call.keywords:
+        return 'other'
+    g = call.args[0]
+    if not (isinstance(g, ast.Name) and g.id in bound_once):
+        return 'other'
+    return 'smallestEigenvalue'
 
 
 def _extract_lu(src, fname):
     """certificate of the Gram-matrix tests = "returned value is True", as a condition on the measured quantity"""
-    fn = _func(ast.parse(src), fname)
+    tree = ast.parse(src)
+    fn = _func(tree, fname)
     ret = _verdict_expr(fn)
     if isinstance(ret, ast.IfExp) and isinstance(ret.body, ast.Tuple):       # return (ret, info) if return_info else ret
         ret = ret.orelse
@@ -293,8 +416,11 @@ def _extract_lu(src, fname):
         raise Untranslatable('returns a tuple')
     nm = _Norm()
     cert = nm.boolean(ret)
-    kind = _measure_kind(next(iter(nm.measured.values()))) if nm.measured else 'other'
-    return _normal_form(cert, 'm'), _signature_default('numqi.matrix_space._hierarchy', fname, 'zero_eps', fn), kind
+    total, top = _binding_census(fn)
+    params = {a.arg for a in fn.args.args + fn.args.kwonlyargs}
+    bound_once = {n for n, c in total.items() if c == 1 and top.get(n, 0) == 1 and n not in params}
+    kind = _measure_kind(next(iter(nm.measured.values())), _module_aliases(tree), bound_once) if nm.measured else 'other'
+    return _normal_form(cert, 'm', 'above'), _signature_default('numqi.matrix_space._hierarchy', fname, 'zero_eps', fn), kind
 
 
 _HDR = '''/- GENERATED by harness/c20.py (translate) from
@@ -356,8 +482,10 @@ def translate(ctx=None):
     old = open(GEN).read() if os.path.exists(GEN) else None
     if old != out:
         with common.build_lock():
-            with open(GEN, 'w') as fh:
+            tmp = GEN + f'.tmp{os.getpid()}'
+            with open(tmp, 'w') as fh:
                 fh.write(out)
+            os.replace(tmp, GEN)   # atomic: a killed run must not leave a half-written generated file (Decision.lean is shared by C05 and C13)
     if ctx is not None:
         ctx.extra['translated'] = {name: dict(expr=expr, zero_eps=str(eps), recognised=known, decision_kind=measures.get(name)) for name, _, _, expr, eps, known in items}
     translate.measures = measures
@@ -370,6 +498,10 @@ def translate(ctx=None):
 # ---------------------------------------------------------------------------
 def ints(a):
     return ';'.join(str(int(x)) for x in np.asarray(a).reshape(-1))
+
+
+def ints_g(a):
+    return ';'.join(f'{int(round(z.real))},{int(round(z.imag))}' for z in np.asarray(a, dtype=np.complex128).reshape(-1))
 
 
 def rints(a):
@@ -416,6 +548,78 @@ class patched:
         for obj, name, old in reversed(self.old):
             setattr(obj, name, old)
         return False
+
+
+class eig_spy:
+    """records every matrix handed to the symmetric eigen-solver family of numpy and scipy (`eigvalsh`, `eigh`, and `scipy.linalg.lu`
+    for the former LU decision) while the block runs; with `inject=(G, m)` a call whose argument equals `G` BY VALUE is answered with a
+    spectrum whose smallest entry is `m` (LU: pivots whose smallest modulus is `m`) — the decision call is identified by what it is given,
+    not by its position in the call sequence or by the spelling of the routine"""
+    def __init__(self, inject=None, sign=1):
+        self.inject = inject
+        self.sign = sign
+        self.calls = []
+        self.hits = 0
+
+    def _match(self, a):
+        if self.inject is None:
+            return False
+        G = self.inject[0]
+        a = np.asarray(a)
+        return a.shape == G.shape and bool(np.abs(a - G).max(initial=0) <= 1e-9 * max(1.0, np.abs(G).max(initial=0)))
+
+    def __enter__(self):
+        import scipy.linalg
+        self.saved = []
+        spy = self
+
+        def wrap(mod, name, kind):
+            orig = getattr(mod, name)
+
+            def f(a, *args, **kw):
+                spy.calls.append((kind, np.array(a)))
+                if spy._match(a):
+                    spy.hits += 1
+                    n = np.asarray(a).shape[0]
+                    m = spy.inject[1]
+                    vals = np.concatenate([[m], 3 + np.arange(n - 1)]).astype(np.float64)
+                    if kind == 'lu':
+                        return None, None, spy.sign * np.diag(vals)
+                    sel = kw.get('subset_by_index', kw.get('eigvals'))
+                    if sel is not None:
+                        vals_ = vals[sel[0]:sel[1] + 1]
+                    else:
+                        vals_ = vals
+                    if kind == 'eigvalsh' or kw.get('eigvals_only'):
+                        return vals_
+                    return vals_, np.eye(n)[:, :len(vals_)]
+                return orig(a, *args, **kw)
+            spy.saved.append((mod, name, orig)); setattr(mod, name, f)
+        wrap(np.linalg, 'eigvalsh', 'eigvalsh'); wrap(np.linalg, 'eigh', 'eigh')
+        wrap(scipy.linalg, 'eigvalsh', 'eigvalsh'); wrap(scipy.linalg, 'eigh', 'eigh'); wrap(scipy.linalg, 'lu', 'lu')
+        return self
+
+    def __exit__(self, *a):
+        for mod, name, orig in reversed(self.saved):
+            setattr(mod, name, orig)
+        return False
+
+    def matrices(self, n):
+        """the distinct square matrices of size n that were handed to the family"""
+        out = []
+        for _, a in self.calls:
+            if a.ndim == 2 and a.shape == (n, n) and not any(np.array_equal(a, b) for b in out):
+                out.append(a)
+        return out
+
+
+def _gram_tie(ctx, opg, G, mats, key):
+    """the decision matrix is tied BY VALUE: among the matrices handed to the eigen-solver family one must be the model's Gram matrix"""
+    ctx.count(key)
+    if any(m.shape == G.shape and np.abs(m - G).max(initial=0) <= 1e-9 * max(1.0, np.abs(G).max(initial=0)) for m in mats):
+        ctx.agree(opg, opg)
+    else:
+        ctx.disagree(opg[:200], repr(G.tolist())[:300], (repr(mats[0].tolist())[:300] if mats else 'no matrix of that size was handed to eigvalsh / eigh / lu'))
 
 
 def sorted_patterns(r):
@@ -877,49 +1081,42 @@ def tie_decisions(ctx):
             ops.append(f'C20 cert rankone {fbits(ub)} {fbits(eps)}')
             impl.append(res if isinstance(res, str) else str(int(not res[0])))
     # --- Gram-matrix certificates: measured quantity vs zero_eps (no arithmetic on either side: exact, boundary included).
-    # The quantity is injected ONLY through the routine the translator found in the source (`DecisionKind`): smallest eigenvalue ->
-    # np.linalg.eigvalsh, LU pivots -> scipy.linalg.lu; an unrecognised routine cannot be injected and is reported.
-    def fake_lu(m):
-        def f(a, *args, **kw):
-            n = a.shape[0]
-            u = np.diag(np.concatenate([[m], 3 + np.arange(n - 1)]) if n else np.zeros(0))
-            sign = -1 if rng.integers(0, 2) else 1
-            return None, None, sign * u
-        return f
-    ev0 = np.linalg.eigvalsh
-
-    def fake_eigvalsh(m, skip):
-        calls = []
-
-        def f(a, *args, **kw):
-            calls.append(1)
-            if len(calls) <= skip:
-                return ev0(a, *args, **kw)      # the independence assert of has_rank_hierarchical_method
-            n = a.shape[0]
-            return np.concatenate([[m], 3 + np.arange(n - 1)])
-        return f
-    q2 = np.linalg.qr(rng.normal(size=(4, 2)))[0].T.reshape(2, 2, 2)
-    q3 = np.linalg.qr(rng.normal(size=(8, 2)))[0].T.reshape(2, 2, 2, 2)
-    for which, fn, call, skip in (('hierarchy', H.has_rank_hierarchical_method, lambda e: H.has_rank_hierarchical_method(q2, 2, **e), 1),
-                                  ('abc', H.is_ABC_completely_entangled_subspace, lambda e: H.is_ABC_completely_entangled_subspace(list(q3), **e), 0),
-                                  ('lu', M.is_vector_linear_independent, lambda e: M.is_vector_linear_independent(q2, 'real', **e), 0)):
+    # Integer generators, so that the model knows the Gram matrix the decision is taken on; the measured quantity is injected into
+    # whichever routine of the eigvalsh / eigh / lu family (numpy or scipy) is handed THAT matrix — independent of the number and order of
+    # other eigen-solver calls (independence assert, …) and of the spelling `[0]` / `.min()` / scipy.  No matching call: reported.
+    g2 = np.array([[[1, 0], [0, 1]], [[0, 1], [1, 1]]])
+    g3 = rng.integers(-2, 3, size=(2, 2, 2, 2))
+    while np.linalg.matrix_rank(g3.reshape(2, -1)) < 2:
+        g3 = rng.integers(-2, 3, size=(2, 2, 2, 2))
+    al2 = list(itertools.combinations_with_replacement(range(2), 2))
+    mo = common.run_model([f'C20 hvec 2 2 2 2 {";".join(map(str, al))} {ints(g2)}' for al in al2]
+                          + [f'C20 abcvec 2 2 2 {ints_g(g3[i])} {ints_g(g3[j])}' for i, j in al2])
+    try:
+        V2 = np.stack([_code_vector_from_model([int(x) for x in line.split(';')], 2, 2, 2, 2, 2) for line in mo[:3]])
+        V3 = np.stack([np.array([complex(int(e.split(',')[0]), int(e.split(',')[1])) for e in line.split(';')]) / 4 for line in mo[3:]])
+        grams = {'hierarchy': V2 @ V2.T, 'abc': V3 @ V3.conj().T}
+    except Exception:
+        grams = {}
+    q2f = g2.astype(np.float64)
+    grams['lu'] = q2f.reshape(2, -1) @ q2f.reshape(2, -1).T
+    for which, fn, call in (('hierarchy', H.has_rank_hierarchical_method, lambda e: H.has_rank_hierarchical_method(q2f, 2, **e)),
+                            ('abc', H.is_ABC_completely_entangled_subspace, lambda e: H.is_ABC_completely_entangled_subspace([x.astype(np.complex128) for x in g3], **e)),
+                            ('lu', M.is_vector_linear_independent, lambda e: M.is_vector_linear_independent(q2f, 'real', **e))):
         prm = inspect.signature(fn).parameters.get('zero_eps')
         d = prm.default if (prm is not None and isinstance(prm.default, (int, float))) else 0.0
         if which != 'lu':
             ops.append(f'C20 certdefault {which}'); impl.append(f'{Fraction(repr(d)).numerator}/{Fraction(repr(d)).denominator}')
         for eps in [d, 1e-3, 0.0, 1e-12]:
             for m in [eps, eps * (1 + 1e-9), eps * (1 - 1e-9), np.nextafter(eps, 1), 0.0, 1e-16, 1.0, 2.5, float(rng.uniform(0, 2 * eps + 1e-8))]:
-                kind = 'minAbsLUPivot' if which == 'lu' else getattr(translate, 'measures', {}).get(which + 'Cert', 'other')
-                if kind == 'smallestEigenvalue':
-                    pt = [(np.linalg, 'eigvalsh', fake_eigvalsh(m, skip))]
-                elif kind == 'minAbsLUPivot':
-                    pt = [(scipy.linalg, 'lu', fake_lu(m))]
-                else:
-                    ops.append(f'C20 cert {which} {fbits(m)} {fbits(eps)}'); impl.append('decision-routine-not-recognised'); continue
-                with patched(*pt):
-                    res = guarded(lambda: call({} if eps == d else dict(zero_eps=eps)))
                 ops.append(f'C20 cert {which} {fbits(m)} {fbits(eps)}')
-                impl.append(res if isinstance(res, str) else str(int(bool(res))))
+                if which not in grams:
+                    impl.append('model-gram-unavailable'); continue
+                with eig_spy(inject=(grams[which], m), sign=-1 if rng.integers(0, 2) else 1) as spy:
+                    res = guarded(lambda: call({} if eps == d else dict(zero_eps=eps)))
+                if spy.hits == 0 and not isinstance(res, str):
+                    impl.append('decision-routine-not-recognised')      # nothing of the eigvalsh / eigh / lu family was given the Gram matrix
+                else:
+                    impl.append(res if isinstance(res, str) else str(int(bool(res))))
     # --- reduce_vector_space: number of singular values kept
     for L in (1, 2, 4):
         for eps in (1e-10, 1e-3):
@@ -959,7 +1156,7 @@ def tie_level_k(ctx):
     from numqi.matrix_space import _hierarchy as H
     rng = np.random.default_rng(ctx.np_seed + 5)
     # (dA, dB, N, rank, k)
-    cfg = [(2, 2, 2, 2, 2), (2, 3, 3, 2, 2), (2, 2, 2, 2, 3), (3, 3, 2, 3, 2), (2, 2, 1, 2, 3), (2, 2, 3, 2, 1), (3, 3, 1, 3, 2)]
+    cfg = [(2, 2, 2, 2, 2), (2, 3, 3, 2, 2), (2, 2, 2, 2, 3), (3, 3, 2, 3, 2), (2, 2, 1, 2, 3), (2, 2, 3, 2, 1), (3, 3, 1, 3, 2), (2, 2, 2, 2, 4), (2, 2, 2, 2, 5)]
     if not ctx.quick():
         cfg += [(3, 3, 3, 2, 3), (3, 4, 3, 3, 2), (3, 3, 2, 3, 3), (2, 3, 2, 2, 4), (4, 4, 2, 4, 2), (3, 3, 3, 3, 2)]
     for dA, dB, N, rank, k in cfg:
@@ -1006,103 +1203,110 @@ def tie_level_k(ctx):
                     ctx.agree(op, op)
                 else:
                     ctx.disagree(op, line[:200], repr(np.asarray(w).tolist())[:200])
-        # --- the Gram matrix of the whole family
+        # --- the Gram matrix of the whole family: the matrix the decision routine is handed (captured by value from the eigvalsh / eigh / lu
+        #     family, numpy or scipy), and — as an extra — the one returned with return_info=True
+        with eig_spy() as spy:
+            res0 = guarded(lambda: H.has_rank_hierarchical_method(np.stack(np_list), rank, hierarchy_k=k))
         res = guarded(lambda: H.has_rank_hierarchical_method(np.stack(np_list), rank, hierarchy_k=k, return_info=True))
         ops = [f'C20 hvec {dA} {dB} {N} {q} {";".join(map(str, al))} {ints(mats)}' for al in alphas]
         mo = common.run_model(ops)
-        ctx.count('level-k-gram')
         opg = f'C20 hvec-gram {dA} {dB} {N} {rank} {k} {ints(mats)}'
-        if isinstance(res, str) or any(x == 'bad-op' for x in mo):
-            ctx.disagree(opg, mo[0][:100], str(res)[:100]); continue
+        if isinstance(res0, str) or any(x == 'bad-op' for x in mo):
+            ctx.count('level-k-gram'); ctx.disagree(opg, mo[0][:100], str(res0)[:100]); continue
         V = np.stack([_code_vector_from_model([int(x) for x in line.split(';')], N, dA, dB, q, n) for line in mo])
         G = V @ V.T
-        got = np.asarray(res[1])
-        if got.shape == G.shape and np.abs(got - G).max() <= 1e-9 * max(1.0, np.abs(G).max()):
-            ctx.agree(opg, opg)
+        _gram_tie(ctx, opg, G, spy.matrices(len(alphas)), 'level-k-gram')
+        ctx.count('level-k-gram-info')
+        got = None if isinstance(res, str) or not isinstance(res, tuple) else np.asarray(res[1])
+        if got is not None and got.shape == G.shape and np.abs(got - G).max() <= 1e-9 * max(1.0, np.abs(G).max()):
+            ctx.agree(opg + ' [return_info]', opg + ' [return_info]')
         else:
-            ctx.disagree(opg, repr(G.tolist())[:300], repr(got.tolist())[:300] if got.shape == G.shape else f'shape {got.shape} vs {G.shape}')
+            ctx.disagree(opg[:200] + ' [return_info]', repr(G.tolist())[:300], repr(res)[:300])
+
+
+def _spy_contractions(H, calls):
+    """optional structural capture: wrap opt_einsum.contract_expression (the two cuts) and project_to_symmetric_basis (symmetric factor)"""
+    oe = getattr(H, 'opt_einsum', None)
+    orig_ce, orig_ps = getattr(oe, 'contract_expression', None), getattr(H, 'project_to_symmetric_basis', None)
+
+    def fake_ce(*a, **kw):
+        expr = orig_ce(*a, **kw)
+
+        def run(x, y, *rest, **kw2):
+            out = expr(x, y, *rest, **kw2)
+            calls.append(('cut', np.array(out).reshape(-1), np.array(x), np.array(y)))
+            return out
+        return run
+
+    def fake_ps(vecs, idx=None, *a, **kw):
+        out = orig_ps(vecs, idx, *a, **kw)
+        calls.append(('sym', np.array(out).reshape(-1), None if idx is None else list(idx)))
+        return out
+    return patched(*([(oe, 'contract_expression', fake_ce)] if orig_ce is not None else []), *([(H, 'project_to_symmetric_basis', fake_ps)] if orig_ps is not None else []))
 
 
 def tie_tripartite(ctx):
-    """is_ABC_completely_entangled_subspace: the two matricisations handed to the contractions and the sum of the two cut outputs,
-    captured in-process by wrapping opt_einsum.contract_expression; dimA != dimB != dimC"""
+    """is_ABC_completely_entangled_subspace at level 1 on Gaussian-integer tensors, dimA != dimB != dimC.  Primary tie (by value): the
+    matrix handed to the eigen-solver family is the Gram matrix of the model's vectors (op abcvec).  Extra, only when the call structure is
+    the one of the current source (two contraction expressions per pair): the matricisations handed to the contractions and the sum of the
+    two cut outputs — skipped with a count, not failed, otherwise."""
     from numqi.matrix_space import _hierarchy as H
     rng = np.random.default_rng(ctx.np_seed + 6)
-    oe = H.opt_einsum
-    orig_ce = oe.contract_expression
     for dA, dB, dC in ([(2, 3, 2), (3, 2, 2), (2, 3, 4), (2, 2, 2)] if ctx.quick() else [(2, 3, 2), (3, 2, 2), (2, 3, 4), (2, 2, 2), (3, 2, 4), (4, 3, 2), (2, 2, 3)]):
         N = 2
         ts = rng.integers(-2, 3, size=(N, dA, dB, dC)) + 1j * rng.integers(-2, 3, size=(N, dA, dB, dC))
         calls = []
-
-        def fake_ce(*a, **kw):
-            expr = orig_ce(*a, **kw)
-            eid = len([c for c in calls if c[0] == 'create'])
-            calls.append(('create', eid, tuple(a[0])))
-
-            def run(x, y, *rest, **kw2):
-                out = expr(x, y, *rest, **kw2)
-                calls.append(('call', eid, np.array(x), np.array(y), np.array(out)))
-                return out
-            return run
-        with patched((oe, 'contract_expression', fake_ce)):
+        with _spy_contractions(H, calls), eig_spy() as spy:
             res = guarded(lambda: H.is_ABC_completely_entangled_subspace(list(ts), hierarchy_k=1))
         pairs = list(itertools.combinations_with_replacement(range(N), 2))
-        cl = [c for c in calls if c[0] == 'call']
-        op0 = f'C20 abc-calls {dA} {dB} {dC}'
-        ctx.count('abc-calls')
-        if isinstance(res, str) or len(cl) != 2 * len(pairs):
-            ctx.disagree(op0, f'{2 * len(pairs)} contractions (cuts A|BC and AB|C for each pair)', res if isinstance(res, str) else f'{len(cl)} contractions'); continue
-        ctx.agree(op0, op0)
+        gl = lambda t: ';'.join(f'{int(z.real)},{int(z.imag)}' for z in np.asarray(t).reshape(-1))
+        vops = [f'C20 abcvec {dA} {dB} {dC} {gl(ts[i])} {gl(ts[j])}' for i, j in pairs]
+        vm = common.run_model(vops)
+        opg = f'C20 abcvec-gram {dA} {dB} {dC} ' + '|'.join(gl(t) for t in ts)
+        if isinstance(res, str) or any(x == 'bad-op' for x in vm):
+            ctx.count('abc-gram'); ctx.disagree(opg[:200], 'a verdict', str(res)[:100]); continue
+        V = np.stack([np.array([complex(int(e.split(',')[0]), int(e.split(',')[1])) for e in line.split(';')]) / 4 for line in vm])
+        _gram_tie(ctx, opg, V @ V.conj().T, spy.matrices(len(pairs)), 'abc-gram')
+        cl = [c for c in calls if c[0] == 'cut']
+        if len(cl) != 2 * len(pairs):
+            ctx.count('abc-structure-skipped'); continue
         ops, impl = [], []
+        skip = False
         for pi, (i, j) in enumerate(pairs):
-            c1, c2 = cl[2 * pi], cl[2 * pi + 1]
+            two = [cl[2 * pi], cl[2 * pi + 1]]
+            c1 = [c for c in two if c[2].shape == (dA, dB * dC)]
+            c2 = [c for c in two if c[2].shape == (dA * dB, dC)]
+            if len(c1) != 1 or len(c2) != 1:
+                skip = True; break
+            c1, c2 = c1[0], c2[0]
             for cut, c in (('A_BC', c1), ('AB_C', c2)):
                 for which, t in ((2, ts[i]), (3, ts[j])):
                     ops.append(f'C20 matabc {cut} {dA} {dB} {dC} {ints(t.real)}'); impl.append(ints(c[which].real))
                     ops.append(f'C20 matabc {cut} {dA} {dB} {dC} {ints(t.imag)}'); impl.append(ints(c[which].imag))
-            tot = 4 * (c1[4].reshape(-1) + c2[4].reshape(-1)) if c1[4].size == c2[4].size else np.zeros(0)
-            ops.append(f'C20 abcvec {dA} {dB} {dC} ' + ';'.join(f'{int(z.real)},{int(z.imag)}' for z in ts[i].reshape(-1)) + ' '
-                       + ';'.join(f'{int(z.real)},{int(z.imag)}' for z in ts[j].reshape(-1)))
+            tot = 4 * (c1[1] + c2[1]) if c1[1].size == c2[1].size else np.zeros(0)
+            ops.append(vops[pi])
             impl.append(';'.join(f'{int(round(z.real))},{int(round(z.imag))}' for z in tot) if np.abs(tot - np.round(tot)).max(initial=0) < 1e-9 else 'nonintegral')
+        if skip:
+            ctx.count('abc-structure-skipped'); continue
         model = common.run_model(ops)
         common.compare(ctx, ops, impl, model, key=lambda op: 'abc-' + op.split(' ')[1])
 
 
-
 def tie_tripartite_level_k(ctx):
-    """is_ABC_completely_entangled_subspace at hierarchy_k >= 2 on Gaussian-integer tensors: for every multi-index the vector assembled
-    from the captured contraction outputs (both cuts) and the captured symmetric factors is the model's exact vector (op abcveck), and the
-    matrix handed to eigvalsh is the Gram matrix of the model's vectors"""
+    """is_ABC_completely_entangled_subspace at hierarchy_k >= 2 on Gaussian-integer tensors.  Primary tie (by value): the matrix handed to
+    the eigen-solver family is the Gram matrix of the model's exact vectors (op abcveck), at every level incl. k = 4 in the quick tier.
+    Extra, only when the call structure is recognisable (per pair of positions two cut contractions and one symmetric factor, in any
+    order): the vector assembled from the captured pieces equals the model vector — skipped with a count otherwise."""
     from numqi.matrix_space import _hierarchy as H
     rng = np.random.default_rng(ctx.np_seed + 16)
-    oe = H.opt_einsum
-    orig_ce, orig_ps, orig_ev = oe.contract_expression, H.project_to_symmetric_basis, np.linalg.eigvalsh
-    cfg = [(2, 2, 2, 2, 2), (2, 3, 2, 2, 2), (2, 2, 2, 1, 2), (2, 2, 2, 2, 3)] + \
-        ([] if ctx.quick() else [(3, 2, 2, 3, 2), (2, 2, 3, 2, 3), (2, 3, 2, 1, 3), (2, 2, 2, 3, 3), (2, 2, 2, 2, 4), (3, 2, 3, 2, 2)])
+    cfg = [(2, 2, 2, 2, 2), (2, 3, 2, 2, 2), (2, 2, 2, 1, 2), (2, 2, 2, 2, 3), (2, 2, 2, 2, 4), (2, 2, 2, 1, 4)] + \
+        ([] if ctx.quick() else [(3, 2, 2, 3, 2), (2, 2, 3, 2, 3), (2, 3, 2, 1, 3), (2, 2, 2, 3, 3), (3, 2, 3, 2, 2), (2, 3, 2, 2, 4)])
     gl = lambda t: ';'.join(f'{int(z.real)},{int(z.imag)}' for z in np.asarray(t).reshape(-1))
     for dA, dB, dC, N, k in cfg:
         D = dA * dB * dC
         ts = rng.integers(-2, 3, size=(N, dA, dB, dC)) + 1j * rng.integers(-2, 3, size=(N, dA, dB, dC))
-        calls, grams = [], []
-
-        def fake_ce(*a, **kw):
-            expr = orig_ce(*a, **kw)
-
-            def run(x, y, *rest, **kw2):
-                out = expr(x, y, *rest, **kw2)
-                calls.append(('cut', np.array(out).reshape(-1)))
-                return out
-            return run
-
-        def fake_ps(vecs, idx, *a, **kw):
-            out = orig_ps(vecs, idx, *a, **kw)
-            calls.append(('sym', np.array(out).reshape(-1), list(idx)))
-            return out
-
-        def fake_ev(m, *a, **kw):
-            grams.append(np.array(m)); return orig_ev(m, *a, **kw)
-        with patched((oe, 'contract_expression', fake_ce), (H, 'project_to_symmetric_basis', fake_ps), (np.linalg, 'eigvalsh', fake_ev)):
+        calls = []
+        with _spy_contractions(H, calls), eig_spy() as spy:
             res = guarded(lambda: H.is_ABC_completely_entangled_subspace(list(ts), hierarchy_k=k))
         alphas = list(itertools.combinations_with_replacement(range(N), 1 + k))
         npair = math.comb(1 + k, 2)
@@ -1112,47 +1316,40 @@ def tie_tripartite_level_k(ctx):
         tline = '|'.join(gl(t) for t in ts)
         ops = [f'C20 abcveck {dA} {dB} {dC} {N} {";".join(map(str, al))} {tline}' for al in alphas]
         mo = common.run_model(ops)
-        ok_struct = (not isinstance(res, str)) and len(calls) == 3 * npair * len(alphas) and len(grams) == 1 \
-            and all(calls[3 * i][0] == 'cut' and calls[3 * i + 1][0] == 'cut' and calls[3 * i + 2][0] == 'sym' for i in range(npair * len(alphas)))
-        vecs = []
+        opg = f'C20 abcveck-gram {dA} {dB} {dC} {N} {k} {tline}'
+        if isinstance(res, str) or any(x == 'bad-op' for x in mo):
+            ctx.count('abc-level-k-gram'); ctx.disagree(opg[:200], 'Gram matrix of the model vectors', str(res)[:100] if isinstance(res, str) else 'bad-op'); continue
+        V = []
+        for line in mo:
+            m = np.array([complex(int(e.split(',')[0]), int(e.split(',')[1])) for e in line.split(';')]).reshape(D * D, len(keys))
+            V.append((m / (4 * w)).reshape(-1))
+        V = np.stack(V)
+        _gram_tie(ctx, opg, V @ V.conj().T, spy.matrices(len(alphas)), 'abc-level-k-gram')
+        # ---- extra: the pieces, when the structure is recognisable
+        groups = [calls[3 * i:3 * i + 3] for i in range(len(calls) // 3)]
+        ok_struct = len(calls) == 3 * npair * len(alphas) and all(sorted(c[0] for c in g) == ['cut', 'cut', 'sym'] for g in groups)
+        if not ok_struct:
+            ctx.count('abc-level-k-structure-skipped', len(alphas)); continue
         for ai, (al, op, line) in enumerate(zip(alphas, ops, mo)):
-            ctx.count('abc-level-k')
-            if not ok_struct:
-                ctx.disagree(op[:200], 'two cuts and one symmetric factor per pair of positions, one eigvalsh call',
-                             res if isinstance(res, str) else f'{len(calls)} captured calls, {len(grams)} eigvalsh calls'); continue
             v = np.zeros((D * D, len(keys)), dtype=np.complex128)
             bad = None
             pairs = list(itertools.combinations(range(1 + k), 2))
             for pi, (i0, i1) in enumerate(pairs):
-                c1, c2, sy = calls[3 * (ai * npair + pi)], calls[3 * (ai * npair + pi) + 1], calls[3 * (ai * npair + pi) + 2]
+                g = groups[ai * npair + pi]
+                cuts = [c for c in g if c[0] == 'cut']; sy = [c for c in g if c[0] == 'sym'][0]
                 rest = [al[x] for x in sorted(set(range(1 + k)) - {i0, i1})]
-                if c1[1].size != D * D or c2[1].size != D * D or sy[1].size != len(keys) or sy[2] != rest:
-                    bad = f'pair {(i0, i1)}: sizes {c1[1].size}, {c2[1].size}, {sy[1].size}, symmetric factor on {sy[2]} (expected {rest})'; break
-                v += np.outer(c1[1] + c2[1], sy[1])
+                if cuts[0][1].size != D * D or cuts[1][1].size != D * D or sy[1].size != len(keys) or (sy[2] is not None and sy[2] != rest):
+                    bad = True; break
+                v += np.outer(cuts[0][1] + cuts[1][1], sy[1])
             if bad:
-                ctx.disagree(op[:200], 'cuts of size D^2, symmetric factor over the remaining positions', bad); continue
-            vecs.append(v.reshape(-1))
+                ctx.count('abc-level-k-structure-skipped'); continue
+            ctx.count('abc-level-k')
             sc = (4 * v * w).reshape(-1)
             got = ';'.join(f'{int(round(z.real))},{int(round(z.imag))}' for z in sc) if np.abs(sc - (np.round(sc.real) + 1j * np.round(sc.imag))).max() < 1e-8 else 'nonintegral'
             if got == line:
                 ctx.agree(op, op)
             else:
                 ctx.disagree(op[:200], line[:200], got[:200])
-        ctx.count('abc-level-k-gram')
-        opg = f'C20 abcveck-gram {dA} {dB} {dC} {N} {k} {tline}'
-        if not ok_struct or any(x == 'bad-op' for x in mo):
-            ctx.disagree(opg[:200], 'Gram matrix of the model vectors', str(res)[:100]); continue
-        V = []
-        for line in mo:
-            m = np.array([complex(int(e.split(',')[0]), int(e.split(',')[1])) for e in line.split(';')]).reshape(D * D, len(keys))
-            V.append((m / (4 * w)).reshape(-1))
-        V = np.stack(V)
-        G = V @ V.conj().T
-        got = grams[0]
-        if got.shape == G.shape and np.abs(got - G).max() <= 1e-9 * max(1.0, np.abs(G).max()):
-            ctx.agree(opg, opg)
-        else:
-            ctx.disagree(opg[:200], repr(G.tolist())[:300], repr(got.tolist())[:300] if got.shape == G.shape else f'shape {got.shape} vs {G.shape}')
 
 
 def tie_dense_bases(ctx):
@@ -1172,7 +1369,7 @@ def tie_dense_bases(ctx):
     for d, r in [(2, 1), (2, 2), (3, 2), (2, 3), (3, 3), (4, 2)] + ([] if ctx.quick() else [(2, 4), (3, 4), (5, 2), (4, 3), (6, 2), (2, 5), (8, 2)]):
         ops.append(f'C20 symbasis {d} {r}'); impl.append(guarded(lambda: coded(H.get_symmetric_basis(d, r), r, False)))
     for d, r in [(2, 3), (3, 0)]:      # rank > dim, rank 0: the implementation asserts
-        ops.append(f'C20 asbasis {d} {r}'); impl.append(guarded(lambda: coded(H.get_antisymmetric_basis(d, r), r, True)).replace('error:assert', 'bad-op'))
+        ops.append(f'C20 asbasis {d} {r}'); r_ = guarded(lambda: coded(H.get_antisymmetric_basis(d, r), r, True)); impl.append('bad-op' if r_.startswith('error:') else r_)      # any rejection counts (AssertionError today)
     model = common.run_model(ops)
     common.compare(ctx, ops, impl, model)
 
@@ -1482,23 +1679,17 @@ def _planted_bipartite(rng, dA, dB, N, low_rank, cplx):
 
 
 def _abc_gram(np_list, k):
-    """the Gram matrix on which is_ABC_completely_entangled_subspace decides (captured in-process from the eigen-solver / LU call)"""
-    import scipy.linalg
+    """the Gram matrix on which is_ABC_completely_entangled_subspace decides (the last square matrix of the expected size handed to the
+    eigvalsh / eigh / lu family of numpy or scipy)"""
     from numqi.matrix_space import is_ABC_completely_entangled_subspace
-    cap = []
-    lu0, ev0 = scipy.linalg.lu, np.linalg.eigvalsh
-
-    def rec_lu(a, *args, **kw):
-        cap.append(np.array(a)); return lu0(a, *args, **kw)
-
-    def rec_ev(a, *args, **kw):
-        cap.append(np.array(a)); return ev0(a, *args, **kw)
-    with patched((scipy.linalg, 'lu', rec_lu), (np.linalg, 'eigvalsh', rec_ev)):
+    n = math.comb(len(np_list) + k, k + 1)
+    with eig_spy() as spy:
         try:
             is_ABC_completely_entangled_subspace(np_list, hierarchy_k=k)
         except Exception:
             return None
-    return cap[-1] if cap else None
+    mats = spy.matrices(n)
+    return mats[-1] if mats else None
 
 
 def probe_planted(ctx):
@@ -1948,18 +2139,13 @@ def probe_options(ctx):
         else:
             ctx.probe_ok(('naive-vs-fast', dA, dB, r, k))
     # --- is_vector_linear_independent: reshape, [Re, Im] for field='real' on complex input, more vectors than coordinates
-    lu0 = scipy.linalg.lu
     for rep in range(6 if ctx.quick() else 24):
         n0 = int(rng.integers(1, 5)); shp = (int(rng.integers(1, 4)), int(rng.integers(1, 4)))
         cplx = rep % 3 != 0; field = 'real' if rep % 2 == 0 else 'complex'
         a = rng.integers(-3, 4, size=(n0,) + shp) + (1j * rng.integers(-3, 4, size=(n0,) + shp) if cplx else 0)
-        seen = []
-
-        def cap_lu(m, *x, **kw):
-            seen.append(np.array(m)); return lu0(m, *x, **kw)
         replay = dict(op='is_vector_linear_independent', field=field, np0_re=np.real(a).tolist(), np0_im=np.imag(a).tolist())
         try:
-            with patched((scipy.linalg, 'lu', cap_lu)):
+            with eig_spy() as spy:
                 res = M.is_vector_linear_independent(a, field)
         except Exception as e:
             ctx.fail('li-preprocessing', f'raised {type(e).__name__}: {e}', replay); continue
@@ -1969,12 +2155,12 @@ def probe_options(ctx):
         exact_rank = np.linalg.matrix_rank(flat)      # small integers: exact
         bad = []
         if flat.shape[0] > flat.shape[1]:
-            if seen or res is not False:
-                bad.append('more vectors than coordinates: expected False without a factorisation')
+            if res is not False:
+                bad.append('more vectors than coordinates: expected False')
         else:
             gram = flat.conj() @ flat.T
-            if len(seen) != 1 or not np.array_equal(seen[0], gram):
-                bad.append('the matrix handed to lu is not the Gram matrix of the (realified) rows')
+            if not any(np.array_equal(m_, gram) for m_ in spy.matrices(gram.shape[0])):
+                ctx.count('li-gram-not-observed')      # a decision that does not go through the eigvalsh / eigh / lu family of the Gram matrix: noted
         if bool(res) and exact_rank < n0:
             bad.append(f'answers independent for integer vectors of rank {exact_rank} < {n0}')
         if (not res) and exact_rank == n0 and flat.shape[0] <= flat.shape[1]:
@@ -1984,6 +2170,7 @@ def probe_options(ctx):
         else:
             ctx.probe_ok(('li', field, cplx, flat.shape[0] > flat.shape[1]))
     # --- rotation vs eigen (both documented; 'usually' equal): measured, a gross difference without the library's warning is reported
+    ran_rot = False
     for rep in range(3 if ctx.quick() else 12):
         dA, dB = [(2, 2), (2, 3), (3, 3)][rep % 3]
         n = dA * dB
@@ -2001,11 +2188,14 @@ def probe_options(ctx):
             ctx.extra['rotation_vs_eigen_max'] = max(ctx.extra.get('rotation_vs_eigen_max', 0.0), float(d))
             warned = 'WARNING' in buf.getvalue()
             ctx.count('rotation-vs-eigen' + ('-warned' if warned else ''))
+            ran_rot = True
             if d > 1e-5 * max(1.0, abs(v_eig)) and not warned:
                 ctx.fail('rotation-vs-eigen', f'({dA},{dB}) kind={kind}: method=rotation gives {v_rot!r}, method=eigen {v_eig!r}, no warning printed',
                          dict(op='get_real_bipartite_numerical_range', kind=kind, mat=mat.tolist()))
             else:
                 ctx.probe_ok(('rotation-vs-eigen', dA, dB, kind))
+    if not ran_rot:
+        ctx.fail('rotation-never-ran', "get_real_bipartite_numerical_range(method='rotation' / 'eigen') raised on every symmetric input tried", dict(op='get_real_bipartite_numerical_range', method='rotation'))
 
 
 def probe(ctx):
